@@ -21,7 +21,9 @@ REQUIRED = ["Sqfs.C04.readNumber_exact_or_error", "Sqfs.C04.number_roundtrip", "
             "Sqfs.C04.prefix_strip", "Sqfs.C04.root_handling", "Sqfs.C04.implicit_parents",
             "Sqfs.C04.sparse_expand_spec_any_request_size", "Sqfs.C04.header_roundtrip", "Sqfs.C04.header_refusal",
             "Sqfs.C04.header_prefix_unused", "Sqfs.C04.xattr_key_escape", "Sqfs.C04.fixpoint_entry_level",
-            "Sqfs.C04.fixpoint_tree_level", "Sqfs.C04.fixpoint_idempotent",
+            "Sqfs.C04.fixpoint_tree_level", "Sqfs.C04.fixpoint_idempotent", "Sqfs.C04.decode_header_spec",
+            "Sqfs.C04.read_header_plain_block", "Sqfs.C04.read_header_after_records", "Sqfs.C04.gnu_long_records",
+            "Sqfs.C04.gnu_long_name_member", "Sqfs.C04.pax_record_spec", "Sqfs.C04.retarget_spec",
             "Sqfs.C04.pax_record_roundtrip", "Sqfs.C04.pax_payload_roundtrip"]
 EXCLUDE = ("lib/tar/src/write_header.c", "lib/tar/src/read_header.c")     # #included by the harness (static helpers)
 U64 = 1 << 64
@@ -1091,7 +1093,12 @@ def unit_reader(ctx, harness, stats):
                                     (b"garbage, not a header", -1), (mk_header(name=b"cut")[:511], -1), (b"\0" * 512 + b"x", -1),
                                     (b"\0" * 511 + b"\x01", -1), (mk_header(name=b"cut", size=5)[:rng.randint(1, 500)], -1)])
         archives.append((body + end, ms, want_end))
-    lines = ["iter " + tok(a) for a, _, _ in archives] + ["iter " + tok(s) for s in seed_streams]
+    # quick tier: the seed archives holding megabyte-sized sparse files (34 KB each, 2 MiB expanded; ~50 s of model time each) go
+    # through the iterator in the thorough tier only; their headers are still decoded above, and generated sparse members of every
+    # dialect plus sparse-files/gnu-small.tar keep the sparse walk covered
+    iter_seeds = [s for s in seed_streams if not ctx.quick() or len(s) < 20000]
+    stats["iter_seed_archives"] = len(iter_seeds)
+    lines = ["iter " + tok(a) for a, _, _ in archives] + ["iter " + tok(s) for s in iter_seeds]
     impl, crash = run_impl(ctx, harness, lines)
     if crash:
         k, rc, err = crash
@@ -1482,6 +1489,143 @@ def tool_xattr_keys(ctx, harness, stats):
     stats["xattr_key_fixpoint"] = seen
 
 
+# ------------------------------------------------------------------ tar2sqfs options no other generator passes: --exclude-dir, --no-skip
+def exclude_verdict(ctx, tools, d, tag, arc, pats):
+    """tar2sqfs -E on a flat archive of one-byte files: (None if as specified else message, number of excluded members)"""
+    import fnmatch
+    members = [arc[o:o + 100].split(b"\0")[0] for o in range(0, len(arc) - 1024, 1024)]
+    kept = [n for n in members if not any(fnmatch.fnmatchcase(n.decode(), p) for p in pats)]
+    want = set()
+    for n in kept:
+        parts = n.split(b"/")
+        for k in range(1, len(parts) + 1):
+            want.add(b"/".join(parts[:k]))
+    img = d / ("e%s.sqfs" % tag)
+    cmd = [str(tools["tar2sqfs"]), "-q", "-f", "-j", "1"]
+    for p in pats:
+        cmd += ["-E", p]
+    r = vlib.sh(cmd + [str(img)], input=arc, env=ctx.san_env(), timeout=600, text=False)
+    if r.returncode != 0:
+        return "tar2sqfs -E %s fails (exit %d): %s" % (pats, r.returncode, r.stderr.decode("latin1")[-200:]), len(members) - len(kept)
+    obs, err = observe_image(ctx, tools, img)
+    try:
+        img.unlink()
+    except OSError:
+        pass
+    got = None if obs is None else set(p for p in (untok(l.split()[1]) for l in obs) if p)          # without the root line
+    if got != want:
+        return "tar2sqfs -E %s on members %s: stored %s, expected %s%s" % (pats, members, sorted(got) if got is not None else None, sorted(want),
+                                                                           (" (" + err + ")") if err else ""), len(members) - len(kept)
+    return None, len(members) - len(kept)
+
+
+def noskip_verdict(ctx, tools, d, tag, arc, flags):
+    img = d / ("n%s.sqfs" % tag)
+    r = vlib.sh([str(tools["tar2sqfs"]), "-q", "-f", "-j", "1"] + flags + [str(img)], input=arc, env=ctx.san_env(), timeout=600, text=False)
+    try:
+        img.unlink()
+    except OSError:
+        pass
+    must_fail = "--no-skip" in flags
+    if r.returncode >= 90 or r.returncode < 0 or (r.returncode != 0) != must_fail:
+        return "an xattr with a prefix SquashFS cannot store (system.), tar2sqfs %s: exit %d, expected %s — %s" % (
+            " ".join(flags) or "(default)", r.returncode, "failure" if must_fail else "success with a warning", r.stderr.decode("latin1")[-200:])
+    return None
+
+
+def big_sparse_verdict(ctx, tools, d, tag, dialect, salt=0):
+    """a sparse member with data regions before, across and after the 4 GiB mark; None if the image holds exactly the expansion"""
+    import random, subprocess
+    G = 1 << 32
+    m = [(0, 512), (G - 512, 1024), (G + 4096 + 512 * (salt % 7), 512)]
+    real = m[-1][0] + 512 + 100 + salt % 50
+    data = bytes((i * 7 + salt) % 251 + 1 for i in range(2048))                  # no zero byte: holes and data are distinguishable
+    arc = sparse_member(random.Random(salt), b"big", m, real, data, dialect) + b"\0" * 1024
+    img = d / ("big%s.sqfs" % tag)
+    env = ctx.san_env()
+    r = vlib.sh([str(tools["tar2sqfs"]), "-q", "-f", "-j", "1", str(img)], input=arc, env=env, timeout=1800, text=False)
+    if r.returncode != 0:
+        return "tar2sqfs fails on a %s sparse member with map %s, size %d: exit %d %s" % (dialect, m, real, r.returncode, r.stderr.decode("latin1")[-200:])
+    p = subprocess.Popen([str(tools["rdsquashfs"]), "-c", "big", str(img)], env=env, stdout=subprocess.PIPE, stderr=subprocess.DEVNULL)
+    pos, bad, dpos = 0, None, 0
+    regions = []
+    o = 0
+    for off, cnt in m:
+        regions.append((off, cnt, o)); o += cnt
+    while True:
+        b = p.stdout.read(1 << 22)
+        if not b:
+            break
+        if bad is None:
+            exp_nonzero = [(off, cnt, so) for off, cnt, so in regions if off < pos + len(b) and off + cnt > pos]
+            if not exp_nonzero:
+                if b.count(0) != len(b):
+                    bad = "non-zero byte in a hole at [%d, %d)" % (pos, pos + len(b))
+            else:
+                want = bytearray(len(b))
+                for off, cnt, so in exp_nonzero:
+                    lo, hi = max(off, pos), min(off + cnt, pos + len(b))
+                    want[lo - pos:hi - pos] = data[so + lo - off:so + hi - off]
+                if bytes(want) != b:
+                    bad = "wrong content in [%d, %d)" % (pos, pos + len(b))
+        pos += len(b)
+    p.wait()
+    try:
+        img.unlink()
+    except OSError:
+        pass
+    if p.returncode != 0:
+        return "rdsquashfs -c fails on the image of a %s sparse member beyond 4 GiB (exit %d)" % (dialect, p.returncode)
+    if pos != real:
+        return "%s sparse member with map %s: stored file has %d bytes, expected %d" % (dialect, m, pos, real)
+    if bad:
+        return "%s sparse member with map %s, size %d: %s" % (dialect, m, real, bad)
+    return None
+
+
+def tool_option_probes(ctx, harness, stats):
+    """(a) `tar2sqfs -E <glob>`: exactly the members whose canonical name matches a glob (fnmatch, flags 0: '*' also matches '/') are left
+    out, everything else is stored; (b) an xattr with a prefix SquashFS cannot store is skipped with a warning, and refused with
+    `--no-skip`.  Expected trees come from Python (`fnmatch.fnmatchcase`), never from the code under test."""
+    rng = ctx.rng
+    tools = {t: ctx.build_tool(t) for t in ("tar2sqfs", "rdsquashfs", "sqfs2tar")}
+    d = ctx.scratch / "optp"
+    d.mkdir(exist_ok=True)
+    seen = {"exclude_cases": 0, "excluded_members": 0, "no_skip_cases": 0}
+    names = [b"keep", b"skipme", b"skipme2", b"d/x.tmp", b"d/y", b"d/sub/z.tmp", b"e/f", b"e/skipme", b"q.tmp", b"dd/x"]
+    for ci in range(4 if ctx.quick() else 30):
+        pats = rng.sample(["skipme", "*.tmp", "d/*", "e/f", "d/?", "skipme*", "*/skipme", "nothing", "d/sub/*"], rng.randint(1, 3))
+        members = rng.sample(names, rng.randint(3, len(names)))
+        arc = b"".join(mk_header(name=n, size=1, mtime=1542905892, dialect="ustar") + pad512(b"x") for n in members) + b"\0" * 1024
+        msg, nex = exclude_verdict(ctx, tools, d, str(ci), arc, pats)
+        seen["exclude_cases"] += 1; seen["excluded_members"] += nex
+        stats["evaluations"] += 2
+        stats["nontrivial"].add(("optE", vlib.sha(tok(arc) + repr(pats))[:16]))
+        if msg:
+            stats["disagreements_checked"] += 1
+            report(ctx, "optE", "optE:" + vlib.sha(tok(arc) + repr(pats))[:10], msg, {"optprobe": {"kind": "exclude", "archive_hex": tok(arc), "patterns": pats}})
+    arc = pax_member([pax_record(b"SCHILY.xattr.system.posix_acl_access", b"\x02\0\0\0"), pax_record(b"SCHILY.xattr.user.ok", b"v")]) + \
+        mk_header(name=b"f", size=1, mtime=1542905892, dialect="ustar") + pad512(b"x") + b"\0" * 1024
+    for ci, flags in enumerate([[], ["--no-skip"]]):
+        msg = noskip_verdict(ctx, tools, d, str(ci), arc, flags)
+        seen["no_skip_cases"] += 1
+        stats["evaluations"] += 1
+        if msg:
+            stats["disagreements_checked"] += 1
+            report(ctx, "optN", "no-skip:" + ("with" if flags else "without"), msg, {"optprobe": {"kind": "no-skip", "archive_hex": tok(arc), "flags": flags}})
+    # (c) a sparse file whose holes/offsets lie beyond 4 GiB (64-bit arithmetic of the sparse walk; the Lean model is over Nat and the
+    # unit-level generator stays below 1 MiB): tar2sqfs must store exactly the specified expansion
+    for ci, dialect in enumerate(["0.1", "1.0"] if ctx.quick() else ["old", "0.0", "0.1", "1.0"]):
+        salt = rng.randrange(1 << 30)
+        msg = big_sparse_verdict(ctx, tools, d, str(ci), dialect, salt)
+        seen["big_sparse_cases"] = seen.get("big_sparse_cases", 0) + 1
+        stats["evaluations"] += 2
+        if msg:
+            stats["disagreements_checked"] += 1
+            report(ctx, "bigsparse", "sparse-4GiB:" + dialect, msg, {"optprobe": {"kind": "big-sparse", "dialect": dialect, "salt": salt}})
+    stats["option_probes"] = seen
+
+
 # ------------------------------------------------------------------ entry points
 def run(ctx):
     ok, problems = vlib.proof_gate(ctx, MODULE, REQUIRED)
@@ -1495,7 +1639,7 @@ def run(ctx):
     stats = {"evaluations": 0, "disagreements_checked": 0, "nontrivial": set(), "samples": []}
     t0 = time.time()
     harness = build_harness(ctx)
-    for fn in (unit_numbers, unit_checksum, unit_headers, unit_reader, unit_canon_inplace, tool_conv, tool_xattr_keys):
+    for fn in (unit_numbers, unit_checksum, unit_headers, unit_reader, unit_canon_inplace, tool_conv, tool_xattr_keys, tool_option_probes):
         t1 = time.time()
         fn(ctx, harness, stats)
         ctx.log("%s: %.1fs" % (fn.__name__, time.time() - t1))
@@ -1572,6 +1716,17 @@ def replay(ctx, path):
         v = xkey_verdict(pairs, fail, obs)
         print("verdict:", v)
         return 0 if v == "ok" else 1
+    if "optprobe" in rp:
+        tools = {t: ctx.build_tool(t) for t in ("tar2sqfs", "rdsquashfs", "sqfs2tar")}
+        o = rp["optprobe"]
+        if o["kind"] == "big-sparse":
+            msg = big_sparse_verdict(ctx, tools, ctx.scratch, "replay", o["dialect"], o.get("salt", 0))
+        elif o["kind"] == "exclude":
+            msg, _ = exclude_verdict(ctx, tools, ctx.scratch, "replay", untok(o["archive_hex"]), o["patterns"])
+        else:
+            msg = noskip_verdict(ctx, tools, ctx.scratch, "replay", untok(o["archive_hex"]), o["flags"])
+        print(msg or "as specified")
+        return 1 if msg else 0
     if "unit" in rp:
         ctx.lean_build(["sqfsmodel"])
         harness = build_harness(ctx)
